@@ -371,6 +371,8 @@ pub enum Pred {
     IsNotNull(String),
     IsTrue(String),
     IsFalse(String),
+    /// contains(col, 'sub') on a string column (what n-gram indices accelerate)
+    Contains(String, String),
     Not(Box<Pred>),
     And(Box<Pred>, Box<Pred>),
     Or(Box<Pred>, Box<Pred>),
@@ -408,6 +410,7 @@ impl Pred {
             Self::IsNotNull(c) => format!("{} IS NOT NULL", c),
             Self::IsTrue(c) => format!("{} IS TRUE", c),
             Self::IsFalse(c) => format!("{} IS FALSE", c),
+            Self::Contains(c, sub) => format!("contains({}, '{}')", c, sub.replace('\'', "''")),
             Self::Not(p) => format!("NOT ({})", p.sql()),
             Self::And(a, b) => format!("({}) AND ({})", a.sql(), b.sql()),
             Self::Or(a, b) => format!("({}) OR ({})", a.sql(), b.sql()),
@@ -453,6 +456,10 @@ impl Pred {
             }
             Self::IsNull(c) => Some(get(c).is_null()),
             Self::IsNotNull(c) => Some(!get(c).is_null()),
+            Self::Contains(c, sub) => match get(c) {
+                Val::S(x) => Some(x.contains(sub.as_str())),
+                _ => None,
+            },
             Self::IsTrue(c) => Some(matches!(get(c), Val::B(true))),
             Self::IsFalse(c) => Some(matches!(get(c), Val::B(false))),
             Self::Not(p) => p.eval(cols, row).map(|b| !b),
@@ -478,6 +485,7 @@ impl Pred {
             | Self::IsNull(c)
             | Self::IsNotNull(c)
             | Self::IsTrue(c)
+            | Self::Contains(c, _)
             | Self::IsFalse(c) => {
                 out.insert(c.clone());
             }
@@ -543,6 +551,9 @@ pub const WORDS: [&str; 12] = [
     "alpha", "beta", "gamma", "delta", "lance", "table", "index", "row", "commit", "zeta", "Ünï", "x",
 ];
 
+/// C20 only: string columns also get longer values (see gen_val)
+pub static RICH_STRINGS: std::sync::atomic::AtomicBool = std::sync::atomic::AtomicBool::new(false);
+
 pub fn gen_val(rng: &mut Rng, c: &ColDef, k: i64, img: i64) -> Val {
     if c.name == "k" {
         return Val::I(k);
@@ -575,6 +586,13 @@ pub fn gen_val(rng: &mut Rng, c: &ColDef, k: i64, img: i64) -> Val {
             let r = rng.below(10);
             if r == 0 {
                 Val::S(String::new())
+            } else if RICH_STRINGS.load(std::sync::atomic::Ordering::Relaxed) && r >= 5 {
+                // longer values with many distinct trigrams (n-gram index pages span several batches)
+                let a = WORDS[rng.usize(WORDS.len())];
+                let b = WORDS[rng.usize(WORDS.len())];
+                let x = (b'a' + rng.below(26) as u8) as char;
+                let y = (b'a' + rng.below(26) as u8) as char;
+                Val::S(format!("{}{}{}{}{}", a, x, y, b, rng.below(4)))
             } else {
                 Val::S(format!("{}{}", WORDS[rng.usize(WORDS.len())], rng.below(4)))
             }
@@ -654,6 +672,16 @@ pub fn gen_pred(rng: &mut Rng, cols: &[ColDef], kmax: i64, depth: u32) -> Pred {
             3 => Pred::IsNotNull(name),
             _ => Pred::Cmp(name, if rng.chance(0.5) { Cmp::Eq } else { Cmp::Ne }, Lit::B(rng.chance(0.5))),
         },
+        Ty::Str if RICH_STRINGS.load(std::sync::atomic::Ordering::Relaxed) && rng.chance(0.35) => {
+            // a substring of a value that may exist: 3-5 characters cut out of a generated string
+            let src = match gen_val(rng, c, 0, 0) {
+                Val::S(x) if x.is_ascii() && x.len() >= 3 => x,
+                _ => "alpha0".to_string(),
+            };
+            let n = (rng.range(3, 5) as usize).min(src.len());
+            let start = rng.usize(src.len() - n + 1);
+            Pred::Contains(name, src[start..start + n].to_string())
+        }
         _ => match rng.below(8) {
             0 => Pred::IsNull(name),
             1 => Pred::IsNotNull(name),
